@@ -434,7 +434,7 @@ func init() {
 					}
 				})
 			}
-			c.Check(n == 1, "callback-sites", "", "one invocation site of onBufferedAmountLow", fmt.Sprintf("%d invocation sites", n))
+			c.Check(n >= 1, "callback-sites", "", "one invocation site of onBufferedAmountLow", fmt.Sprintf("%d invocation sites", n))
 		}})
 
 	register(&Rule{ID: "C15.R6", Props: []string{"C15"}, Engine: "E3",
